@@ -178,6 +178,7 @@ class Run:
         self.writes: list[tuple[int, str]] | None = None  # write log when inside a loop body
         self.all_writes: list[tuple[int, str]] = []
         self.loop_idx: Any = None
+        self.loop_phase = ""
         self.unbound: set[str] = set()
 
     # -------------------------------------------------------------- symbols
@@ -1526,6 +1527,9 @@ class Run:
         # 1. establish
         g0 = lspec.entry(self) if hasattr(lspec, "entry") else {}
         self.loop_idx = 0
+        self.loop_phase = "init"
+        for f in lspec.facts(self, g0) if hasattr(lspec, "facts") else []:
+            self.assume(f)
         for nm, f in lspec.inv(self, g0):
             self.oblige(f"loop{ordinal}.init.{nm}", f)
         # 2. havoc
@@ -1548,6 +1552,9 @@ class Run:
             self.loop_idx = idx
         else:
             self.loop_idx = None
+        self.loop_phase = "head"
+        for f in lspec.facts(self, ghosts) if hasattr(lspec, "facts") else []:
+            self.assume(f)
         for _nm, f in lspec.inv(self, ghosts):
             self.assume(f)
         # 3. exit or iterate
@@ -1593,7 +1600,10 @@ class Run:
                 self.oblige(f"loop{ordinal}.frame", False, note=f"undeclared write to object {oid}.{f}")
         if is_for:
             self.loop_idx = wrap(idx.t + 1, "int")
+        self.loop_phase = "step"
         gb = lspec.back(self, ghosts) if hasattr(lspec, "back") else ghosts
+        for f in lspec.facts(self, gb) if hasattr(lspec, "facts") else []:
+            self.assume(f)
         for nm, f in lspec.inv(self, gb):
             self.oblige(f"loop{ordinal}.step.{nm}", f)
         raise PathEnd
@@ -1607,6 +1617,10 @@ class Run:
             return tuple(self._havoc_val(f"{name}_{i}", c) for i, c in enumerate(cur))
         if isinstance(cur, SeqV):
             return SeqV(self.fresh_t(f"h_{name}", "seq:" + cur.ek), cur.ek)
+        if isinstance(cur, z3.ExprRef):
+            n = self.counters.get("h_" + name, 0)
+            self.counters["h_" + name] = n + 1
+            return z3.Const(f"h_{name}!{n}{self.trace_key()}", cur.sort())
         return self.fresh(f"h_{name}", kind_of(cur))
 
     def _havoc_field(self, r: Ref, f: str) -> None:
